@@ -272,6 +272,11 @@ class Bag(Factory, Container):
             else:
                 raise JsonFormatException(json["name"], "Bag.name")
 
+            if isinstance(json["range"], basestring):
+                range = json["range"]
+            else:
+                raise JsonFormatException(json["range"], "Bag.range")
+
             if json["values"] is None:
                 values = None
 
@@ -284,7 +289,13 @@ class Bag(Factory, Container):
                         else:
                             raise JsonFormatException(nv["w"], f"Bag.values {i} n")
 
-                        if nv["v"] in ("nan", "inf", "-inf") or isinstance(nv["v"], numbers.Real):
+                        if range == "S":
+                            # a string is a string, also when it is spelled like a non-finite number
+                            if isinstance(nv["v"], basestring):
+                                v = nv["v"]
+                            else:
+                                raise JsonFormatException(nv["v"], f"Bag.values {i} v")
+                        elif nv["v"] in ("nan", "inf", "-inf") or isinstance(nv["v"], numbers.Real):
                             v = floatOrNan(nv["v"])
                         elif isinstance(nv["v"], basestring):
                             v = nv["v"]
@@ -306,11 +317,6 @@ class Bag(Factory, Container):
 
             else:
                 raise JsonFormatException(json["values"], "Bag.values")
-
-            if isinstance(json["range"], basestring):
-                range = json["range"]
-            else:
-                raise JsonFormatException(json["range"], "Bag.range")
 
             out = Bag.ed(entries, values, range)
             out.quantity.name = nameFromParent if name is None else name
